@@ -306,10 +306,19 @@ class LogBase:
     info = warning = error = debug
 
     def isEnabledFor(self, level):
-        return True
+        # follows the logging configuration of the current pass: the correspondence and the first oracle pass run
+        # with logging.disable(CRITICAL) (nothing is enabled), the second oracle pass with everything at DEBUG
+        import logging
+
+        try:
+            return int(level) > logging.root.manager.disable
+        except Exception:  # noqa: BLE001
+            return True
 
     def getEffectiveLevel(self):
-        return 10
+        import logging
+
+        return 10 if logging.root.manager.disable < 10 else 60
 
     def critical(self, *a, **k):
         return self.error(*a, **k)
